@@ -25,6 +25,8 @@ type VM struct {
 
 	// moduleGraph - record a module dependency graph to detect circular dependency
 	moduleGraph *ModuleGraph
+	// evalDepth - number of expressions whose evaluation is in progress (nested in one another)
+	evalDepth int
 
 	// moduleCodeFinder - HOWTO get the source code of a module
 	moduleCodeFinder ModuleCodeFinder
@@ -120,6 +122,18 @@ func (vm *VM) PopCallFrame() {
 	} else {
 		vm.csModuleID = vm.callStack[vm.csCount-1].module.GetID()
 	}
+}
+
+// EnterEval - one more expression is being evaluated inside the ones in progress; false when
+// that makes more than max (to be paired with LeaveEval)
+func (vm *VM) EnterEval(max int) bool {
+	vm.evalDepth++
+	return vm.evalDepth <= max
+}
+
+// LeaveEval -
+func (vm *VM) LeaveEval() {
+	vm.evalDepth--
 }
 
 func (vm *VM) GetCallStack() []*CallFrame {
